@@ -148,6 +148,8 @@ def refs(name):
     d, T, mk = REF_SCHEMAS[name]
 
     def pre(x, a, b):
+        if name == "defs_items_anyOf":
+            return small(x, 1, 1, 2)       # Dict[str, List[int]]: one member (two-level symbolic containers do not finish otherwise)
         return small(x, 1, 2, 2)
 
     def body(x, a, b):
